@@ -17,6 +17,9 @@ from .clocksim import GenNLS, nls_params, nls_ref
 NAME = "filtersim"
 SIM_UNIT = "filter steps"
 BUDGET = {"quick": {"runs": 6000, "wall": 80}, "thorough": {"runs": 60000, "wall": 1500}}
+ISOLATE = "chunk"       # every chunk of runs in a forked child of a pristine worker: what a run sees of the process is a
+                        # deterministic function of the runs before it in the same chunk (see runner.run_history_iso)
+CHUNK = 64
 SHRINK_LISTS = ("ops",)
 PROBES = {"C13": ["prior-correlated", "prior-diagonal", "step>=10", "time-indexed", "ukf:k<0", "ukf:k>=0",
                   "ukf:default-k", "ukf:k-varies", "ekf:nonlinear", "QR-per-call", "QR-at-one-step-only", "ukf:user-msqrt", "twin-filter-retuned", "ukf:nonlinear-psd", "pf:judged", "pf:low-ess-judged", "pf:far-from-origin", "outlier-measurement", "dims>=4", "spread>=1e4"]}
